@@ -361,6 +361,31 @@ def check_at(desc, ctx):
     if not okp:
         raise Violation(f"pressure_at(loading given as {tl} per {tm}: {ql_f.tolist()}) = {got_pi.tolist()} but the same "
                         f"loadings in stored units give {base_p.tolist()}", tag="input_interpretation")
+    # the isotherm ITSELF (both interpolators exist by now) permanently converted the same way and read natively:
+    # the same numbers as the clone that was converted before it was ever asked anything
+    try:
+        cl_l = np.asarray(clone.loading_at(qp_f), dtype=float)
+        cl_p = np.asarray(clone.pressure_at(ql_f), dtype=float)
+    except (ValueError, pygaps.utilities.exceptions.pgError):
+        cl_l = cl_p = None
+    if cl_l is not None:
+        if prep is not None:
+            iso.convert_pressure(mode_to=prep[0], unit_to=prep[1])
+        if mrep is not None:
+            iso.convert_material(basis_to=mrep[0], unit_to=mrep[1])
+        if lrep is not None:
+            iso.convert_loading(basis_to=lrep[0], unit_to=lrep[1])
+        try:
+            own_l = _ask(iso.loading_at, qp_f, cont)
+            own_p = _ask(iso.pressure_at, ql_f, cont)
+        except ValueError as e:
+            raise Violation(f"after converting the isotherm itself to {tp} / {tl} per {tm} a native read inside its own "
+                            f"range is refused ({e}); the clone converted before any read answers", tag="stale_after_conversion")
+        if not (allclose(own_l, cl_l, rel=1e-12) and allclose(own_p, cl_p, rel=1e-12)):
+            raise Violation(f"after converting the isotherm itself to {tp} / {tl} per {tm}: loading_at {own_l.tolist()} / "
+                            f"pressure_at {own_p.tolist()} != the clone converted before any read {cl_l.tolist()} / "
+                            f"{cl_p.tolist()}", tag="stale_after_conversion")
+        ctx.label("converted_in_place_after_reads")
     changed = (prep not in (None, sp)) or (lrep not in (None, sl)) or (mrep not in (None, sm))
     if changed:
         ctx.nt([sp, sl, sm, prep, lrep, mrep], desc)
